@@ -179,11 +179,10 @@ AddInstall(c) ==
      /\ cpc' = [cpc EXCEPT ![c] = SetTop(c, [f EXCEPT !.st = "installed"])]
   /\ UNCHANGED <<refNH, refNHG, pend, lockF, fpc, rets>>
 
-\* [count]: handleReferences / handleNHGReferences with the entry [try] retrieved
-AddCount(c) ==
-  /\ K
-  /\ InCall(c) /\ Top(c).st = "installed"
-  /\ LET f == Top(c)  o == f.op  me == cpc[c] IN
+\* [count]: handleReferences / handleNHGReferences with the entry [try] retrieved; then - a consumer of resolved-entry
+\* announcements being registered - the announcement of a top-level entry copies every instance under its read lock
+CountEffect(c, newst) ==
+  LET f == Top(c)  o == f.op  me == cpc[c] IN
      /\ CASE o.kind = "nh" -> UNCHANGED <<refNH, refNHG>>
           [] o.kind = "nhg" ->
                /\ refNH' = [refNH EXCEPT ![o.ni] = DecAll(IncAll(@, o.nhs), IF f.orig = None THEN {} ELSE f.orig.nhs)]
@@ -194,8 +193,25 @@ AddCount(c) ==
                IN /\ refNHG' = IF same THEN refNHG ELSE [r1 EXCEPT ![o.gni] = Inc(@, o.g)]
                   /\ UNCHANGED refNH
      /\ pend' = Del(pend, o.id)
-     /\ cpc' = [cpc EXCEPT ![c] = [SetTop(c, [f EXCEPT !.st = "counted"]) EXCEPT !.done = @ \cup {o.id}, !.oks = Append(@, o.id)]]
+     /\ cpc' = [cpc EXCEPT ![c] = [SetTop(c, [f EXCEPT !.st = newst]) EXCEPT !.done = @ \cup {o.id}, !.oks = Append(@, o.id)]]
+AddCount(c) ==
+  /\ K
+  /\ InCall(c) /\ Top(c).st = "installed"
+  /\ IsTop(Top(c).op) => lockF = {}
+  /\ CountEffect(c, "counted")
   /\ UNCHANGED <<nh, nhg, ip, lockF, fpc, rets>>
+\* the same while the Flush caller holds some instance: the counting is done, the announcement waits for that instance's read lock
+BlockCount(c) ==
+  /\ K
+  /\ InCall(c) /\ Top(c).st = "installed" /\ IsTop(Top(c).op) /\ lockF # {}
+  /\ ~\E d \in Callers : InCall(d) /\ Top(d).st \in {"wchecked", "wdchecked", "wcounted", "wdone"}
+  /\ CountEffect(c, "wcounted")
+  /\ UNCHANGED <<nh, nhg, ip, lockF, fpc, rets>>
+WakeCount(c) ==
+  /\ K
+  /\ InCall(c) /\ Top(c).st = "wcounted" /\ lockF = {}
+  /\ cpc' = [cpc EXCEPT ![c] = SetTop(c, [Top(c) EXCEPT !.st = "counted"])]
+  /\ UNCHANGED <<ribvars, lockF, fpc, rets>>
 
 \* [walk]: snapshot of the held operations, then the first retry (or the return)
 AddWalk(c, nxt) ==
@@ -210,7 +226,9 @@ AddWalk(c, nxt) ==
 \* A goroutine released from its gate while the Flush caller holds the write lock of the instance it is about to
 \* change waits inside Lock(); it goes on by itself when the Flush returns.  One waiter at a time: which of several
 \* waiters the runtime serves first cannot be forced.
-Waiting(c) == InCall(c) /\ Top(c).st \in {"wchecked", "wdchecked"}
+Waiting(c) == InCall(c) /\ Top(c).st \in {"wchecked", "wdchecked", "wcounted", "wdone"}
+\* what a waiter waits for: the write lock of its instance, or (an announcement) the read lock of any instance
+WaitsFor(c) == IF Top(c).st \in {"wchecked", "wdchecked"} THEN {Top(c).op.ni} ELSE NIs
 Block(c) ==
   /\ K
   /\ InCall(c) /\ Top(c).st \in {"checked", "dchecked"} /\ Top(c).op.ni \in lockF
@@ -247,16 +265,33 @@ DelRemove(c) ==
      /\ cpc' = [cpc EXCEPT ![c] = SetTop(c, [f EXCEPT !.st = "dremoved"])]
   /\ UNCHANGED <<refNH, refNHG, pend, lockF, fpc, rets>>
 
+UncountEffect(c) ==
+  LET f == Top(c)  o == f.op IN
+     CASE IsTop(o) /\ f.orig # None -> refNHG' = [refNHG EXCEPT ![f.orig.gni] = Dec(@, f.orig.g)] /\ UNCHANGED refNH
+       [] o.kind = "nhg" /\ f.orig # None -> refNH' = [refNH EXCEPT ![o.ni] = DecAll(@, f.orig.nhs)] /\ UNCHANGED refNHG
+       [] OTHER -> UNCHANGED <<refNH, refNHG>>
+ReturnDel(c) ==
+  /\ cpc' = [cpc EXCEPT ![c] = [i |-> cpc[c].i + 1, stk |-> <<>>, done |-> {}, oks |-> <<>>, fails |-> <<>>]]
+  /\ rets' = [rets EXCEPT ![c] = Append(@, [id |-> Top(c).op.id, oks |-> <<Top(c).op.id>>, fails |-> <<>>])]
 DelUncount(c) ==
   /\ K
   /\ InCall(c) /\ Top(c).st = "dremoved"
-  /\ LET f == Top(c)  o == f.op IN
-     /\ CASE IsTop(o) /\ f.orig # None -> refNHG' = [refNHG EXCEPT ![f.orig.gni] = Dec(@, f.orig.g)] /\ UNCHANGED refNH
-          [] o.kind = "nhg" /\ f.orig # None -> refNH' = [refNH EXCEPT ![o.ni] = DecAll(@, f.orig.nhs)] /\ UNCHANGED refNHG
-          [] OTHER -> UNCHANGED <<refNH, refNHG>>
-     /\ cpc' = [cpc EXCEPT ![c] = [i |-> cpc[c].i + 1, stk |-> <<>>, done |-> {}, oks |-> <<>>, fails |-> <<>>]]
-     /\ rets' = [rets EXCEPT ![c] = Append(@, [id |-> o.id, oks |-> <<o.id>>, fails |-> <<>>])]
+  /\ IsTop(Top(c).op) => lockF = {}
+  /\ UncountEffect(c) /\ ReturnDel(c)
   /\ UNCHANGED <<nh, nhg, ip, pend, lockF, fpc>>
+\* the counters are released, the DELETE announcement of a top-level entry waits for a read lock the Flush caller's write lock excludes
+BlockUncount(c) ==
+  /\ K
+  /\ InCall(c) /\ Top(c).st = "dremoved" /\ IsTop(Top(c).op) /\ lockF # {}
+  /\ ~\E d \in Callers : InCall(d) /\ Top(d).st \in {"wchecked", "wdchecked", "wcounted", "wdone"}
+  /\ UncountEffect(c)
+  /\ cpc' = [cpc EXCEPT ![c] = SetTop(c, [Top(c) EXCEPT !.st = "wdone"])]
+  /\ UNCHANGED <<nh, nhg, ip, pend, lockF, fpc, rets>>
+WakeDone(c) ==
+  /\ K
+  /\ InCall(c) /\ Top(c).st = "wdone" /\ lockF = {}
+  /\ ReturnDel(c)
+  /\ UNCHANGED <<ribvars, lockF, fpc>>
 
 (* -------------------------- AddNetworkInstance -------------------------- *)
 \* a writer of the instance map (nrMu): one segment, no gate; the new instance is empty and nothing refers to it
@@ -308,7 +343,7 @@ GateOf(me) ==
   ELSE LET st == me.stk[Len(me.stk)].st IN
        CASE st = "try" -> "add.try" [] st = "checked" -> "add.checked" [] st = "installed" -> "add.installed"
          [] st = "counted" -> "add.counted" [] st = "dchecked" -> "del.checked" [] st = "dremoved" -> "del.removed"
-         [] st \in {"wchecked", "wdchecked"} -> "blocked" [] OTHER -> "?"
+         [] st \in {"wchecked", "wdchecked", "wcounted", "wdone"} -> "blocked" [] OTHER -> "?"
 GidOf(me) == IF me.stk # <<>> /\ me.stk[Len(me.stk)].st \in {"try", "counted"} THEN me.stk[Len(me.stk)].op.id ELSE 0
 FGate(f) == CASE f.st = "run" -> "flush.ni" [] f.st = "end" -> "flush.done" [] OTHER -> "ret"
 
